@@ -16,12 +16,17 @@ def aligned_family(ex, polys, base="al", shape=None, same_shape=True):
     out = []
     for k, p in enumerate(polys):
         q = Poly(ctx, f"{base}{k}", N=N, D=D, row=(lambda t, rf=rf: rf(t)), shape=shape if same_shape else getattr(p, "shape", None),
-                 names=names, region=Region("caller", f"{base}{k} (may be the argument itself)"),
+                 names=names, region=Region("fresh", f"{base}{k}"),
                  dtype=getattr(p, "dtype", None))
+        q.owndata = z3.BoolVal(True)       # align_exponents rebuilds every operand with from_attributes
         out.append(q)
     for q in out:
         q.aligned_with = out
     ctx.assume(out[0].wf(ctx))
+    # each result denotes its input (broadcast to the common shape where shape is aligned)
+    for p, q in zip(polys, out):
+        if hasattr(p, "val"):
+            ctx.assume(ctx.forall_idx(lambda i, p=p, q=q: q.val(i) == p.val(proj(i, q.shape, p.shape)), q.shape))
     return out
 
 
@@ -50,4 +55,24 @@ class AlignPolynomials(Contract):
         return tuple(res)
 
 
-CONTRACTS = [AlignPolynomials()]
+class AlignExponents(Contract):
+    name = "numpoly.align_exponents"
+    relpath = "numpoly/align.py"
+    func = "align_exponents"
+    properties = ("C04",)
+
+    def cases(self):
+        return iter(())
+
+    def apply(self, ex, args, kw, node):
+        polys = list(args)
+        if not all(isinstance(p, Poly) for p in polys):
+            raise U("align_exponents of non-ndpoly operands", node)
+        res = aligned_family(ex, polys, base=ex.ctx.fresh("ae"), same_shape=False)
+        hook = getattr(ex, "hooks", {}).get("after_align")
+        if hook:
+            hook(ex, res)
+        return tuple(res)
+
+
+CONTRACTS = [AlignPolynomials(), AlignExponents()]
